@@ -681,6 +681,8 @@ mod response {
         offset: usize,
 
         content_length: usize,
+        /// What the request declared. Unlike `content_length`, this isn't reset when the body is read.
+        declared_length: usize,
         // also update Debug implementation when adding fields
     }
     impl<R: AsyncRead + Unpin> Http1Body<R> {
@@ -695,11 +697,35 @@ mod response {
                 offset: 0,
 
                 content_length,
+                declared_length: content_length,
             }
         }
-        /// If a part of the body is still on the socket, not read by anyone.
-        pub(crate) fn unread_on_socket(&self) -> bool {
-            self.content_length > self.offset.max(self.bytes.len())
+        /// Reads and discards the part of the body which is still on the socket, not read by
+        /// anyone (or only partially, e.g. by [`Self::read_to_bytes`] with a small `max_len`).
+        /// Else, it'd be read as the next request.
+        ///
+        /// Returns `false` if that's more than `max` bytes or if the peer doesn't deliver them,
+        /// waiting `patience` for each read. The connection can't be used again then.
+        pub(crate) async fn discard_rest(&mut self, max: usize, patience: Duration) -> bool {
+            let mut left = self
+                .declared_length
+                .saturating_sub(self.offset.max(self.bytes.len()));
+            if left > max {
+                return false;
+            }
+            let mut scratch = [0; 4096];
+            let mut reader = self.reader.lock().await;
+            while left > 0 {
+                let wanted = left.min(scratch.len());
+                match timeout(patience, reader.read(&mut scratch[..wanted])).await {
+                    Ok(Ok(read)) if read > 0 => left -= read,
+                    _ => return false,
+                }
+            }
+            drop(reader);
+            self.offset = self.offset.max(self.declared_length);
+            self.content_length = 0;
+            true
         }
         /// Reads all bytes from `self` to a [`Bytes`].
         ///
@@ -755,7 +781,8 @@ mod response {
                 (self.reader),
                 (self.bytes, &"[internal buffer]".as_clean()),
                 (self.offset),
-                (self.content_length)
+                (self.content_length),
+                (self.declared_length)
             );
             s.finish()
         }
